@@ -657,6 +657,63 @@ pub fn c14(tier: &str, acc: &mut Acc, bounds: &mut Vec<String>) {
         }
         bounds.push(format!("all n! orders of every set of <= {kmax} patterns from U({sigma},{maxlen}) with fixed values x Standard/LeftmostLongest x nfb {{1,default}} x 5 embeddings: byte-identical images; double build"));
     }
+    // --- wide nodes: five and more children below one state, several of them non-leaves with equal
+    //     fan-out (a tie-break on anything but the label would depend on the registration order) ----
+    {
+        let pool: Vec<Vec<u8>> = ["a", "b", "c", "d", "e", "ax", "by", "cx", "dy", "f"].iter().map(|s| s.as_bytes().to_vec()).collect();
+        let cpool: Vec<Vec<u8>> = ["\u{e9}", "b", "\u{4e16}", "d", "\u{1f600}", "\u{e9}x", "by", "\u{4e16}x", "dy", "f"].iter().map(|s| s.as_bytes().to_vec()).collect();
+        let sizes: &[usize] = if thorough { &[5, 6] } else { &[5] };
+        let mut sets: Vec<Vec<usize>> = Vec::new();
+        for mask in 0u32..(1 << pool.len()) {
+            let k = mask.count_ones() as usize;
+            if sizes.contains(&k) {
+                let idx: Vec<usize> = (0..pool.len()).filter(|i| mask & (1 << i) != 0).collect();
+                // duplicate-free by construction; keep sets with at least two two-letter patterns
+                if idx.iter().filter(|&&i| pool[i].len() == 2).count() >= 2 {
+                    sets.push(idx);
+                }
+            }
+        }
+        let a = par_for(sets.len(), |si, acc| {
+            let idx = &sets[si];
+            let perms = permutations(idx.len());
+            for (variant, pl) in [(Variant::Byte, &pool), (Variant::Char, &cpool)] {
+                for kind in [Kind::Std, Kind::LL] {
+                    let cfg = Cfg::new(variant, kind, None, Entry::Builder);
+                    let base: Vec<Vec<u8>> = idx.iter().map(|&i| pl[i].clone()).collect();
+                    let vals: Vec<u32> = idx.iter().map(|&i| 100 + i as u32).collect();
+                    set_case(prop, "orders", e2::case_json(&cfg, &base, Some(&vals)));
+                    let mut first: Option<Vec<u8>> = None;
+                    for p in &perms {
+                        let pp: Vec<Vec<u8>> = p.iter().map(|&i| base[i].clone()).collect();
+                        let pv: Vec<u32> = p.iter().map(|&i| vals[i]).collect();
+                        let Some(b) = e2::build_or_violate(prop, "orders", cfg, &pp, Some(&pv), acc) else {
+                            continue;
+                        };
+                        let bytes = b.auto.serialize();
+                        acc.evals += 1;
+                        acc.nontrivial += 1;
+                        acc.traces += 1;
+                        match &first {
+                            None => first = Some(bytes),
+                            Some(f) => {
+                                if *f != bytes {
+                                    let mut c = e2::case_json(&cfg, &pp, Some(&pv));
+                                    c.as_object_mut().unwrap().insert("check".into(), json!("order"));
+                                    c.as_object_mut().unwrap().insert("reference_order".into(), json!(base.iter().map(|p| hex(p)).collect::<Vec<_>>()));
+                                    c.as_object_mut().unwrap().insert("reference_values".into(), json!(vals));
+                                    acc.violate(prop, "orders", format!("registration order changes the automaton: {} vs {} [{} {}]", e2::show_pats(&pp), e2::show_pats(&base), variant.name(), kind.name()), c);
+                                    break;
+                                }
+                            }
+                        }
+                    }
+                }
+            }
+        });
+        acc.merge(a);
+        bounds.push(format!("all n! orders of every set of {sizes:?} patterns from a 10-string pool with five root children and tied non-leaf siblings ({} sets) x Standard/LeftmostLongest x both variants", sets.len()));
+    }
     // --- large families: identity, reversal, rotations, even/odd interleave --------------------
     let level = if thorough { 1 } else { 0 };
     let fams = pop::families_for(level);
